@@ -43,6 +43,9 @@ structure St where
   tainted : List Nat := []
   /-- Hosts matchers whose model state is unknown for the same reason -/
   taintedHosts : List Nat := []
+  /-- middlewares that write response headers at request time (op `mw-script`): the model's middlewares have no effect of
+  their own, so a request that passes through one of them is outside the modelled domain (the requests after it are not) -/
+  mwScripts : List Nat := []
   deriving Inhabited
 
 def lookup {α : Type} (l : List (Nat × α)) (k : Nat) : Option α := (l.find? (·.1 = k)).map (·.2)
@@ -135,6 +138,12 @@ def fmtServe (x : Option Call × Outcome) : String :=
 in the modelled domain (`Mux.informational`, `Rec.writeHeader`, `runHead`), so they are formatted like any other; the
 scripts are no longer consulted. -/
 def fmtServeS (_scripts : Scripts) (x : Option Call × Outcome) : String := fmtServe x
+
+/-- A call that runs through a middleware with a header script is answered `unsupported` (see `St.mwScripts`). -/
+def viaScriptedMw (ids : List Nat) (x : Option Call × Outcome) : Bool :=
+  match x with
+  | (some c, _) => c.handler.wraps.any (fun w => ids.contains w.mw)
+  | _ => false
 
 def fmtErr (e : Err) : String :=
   match e with
@@ -263,6 +272,31 @@ def fmtUrl (x : Except Err Bytes) : String :=
   | .ok u => "url " ++ encB u
   | .error e => fmtErr e
 
+/-- `Group.New(name, matcher, options…)`: a router with the group's options (adjusted by `cfgOf` for options given to
+this router alone), then `Add`. -/
+def groupNew (st : St) (cfgOf : RouterCfg → RouterCfg) (gid rid name mexpr : String) : St × String :=
+    -- `Group.New(name, matcher)`: a router with the group's options, then `Add`
+    match gid.toNat?, rid.toNat? with
+    | some g, some r =>
+      match lookup st.groups g, lookup st.groupCfg g with
+      | some grp, some cfg0 =>
+        let cfg := cfgOf cfg0
+        match parseMatcher mexpr with
+        | none => (st, "reject:empty-version")
+        | some m =>
+          match Router.new { cfg with name := decB name, notFoundBase := .groupNotFound } with
+          | none => (st, "reject:empty-name")
+          | some router =>
+            let rt1 := st.routers.set r router
+            match grp.add rt1 m r with
+            | some (grp', _) =>
+              -- the router only becomes visible under `rid` when `Add` succeeded
+              let (_, rt') := ((grp.add rt1 m r).getD (grp', rt1))
+              ({ st with groups := update st.groups g grp', routers := rt' }, "ok")
+            | none => (st, "reject:dup-name")
+      | _, _ => (st, "bad-op")
+    | _, _ => (st, "bad-op")
+
 def step (st : St) (line : String) : St × String :=
   let toks := (line.trimAscii.toString.splitOn " ").filter (· ≠ "")
   let env := driverEnv
@@ -299,7 +333,9 @@ def step (st : St) (line : String) : St × String :=
       -- `strings.EqualFold` / `TrimSpace` of the allowed-headers check are Unicode-aware; the model is ASCII
       if ¬ r.cors.deny ∧ ((req.headers.get hACRH).any (· ≥ 128) ∨ r.cors.allowHeaders.any (fun h => h.any (· ≥ 128)))
       then (st, "unsupported")
-      else (st, fmtServeS st.scripts (r.serveHTTP env st.pc st.scripts req [])))
+      else
+        let res := r.serveHTTP env st.pc st.scripts req []
+        if viaScriptedMw st.mwScripts res then (st, "unsupported") else (st, fmtServeS st.scripts res))
   | ["nserve", rid, method, path, host, hdrs, accept, m2, p2] =>
     -- the handler of the outer request serves a second request on the same router before it goes on: both are alive at
     -- once; in the model contexts are values, so the outer request keeps exactly its own parameters
@@ -425,27 +461,15 @@ def step (st : St) (line : String) : St × String :=
           | none => (st, "reject:dup-name")
       | none => (st, "bad-op")
     | _, _ => (st, "bad-op")
-  | ["group-new", gid, rid, name, mexpr] =>
-    -- `Group.New(name, matcher)`: a router with the group's options, then `Add`
-    match gid.toNat?, rid.toNat? with
-    | some g, some r =>
-      match lookup st.groups g, lookup st.groupCfg g with
-      | some grp, some cfg =>
-        match parseMatcher mexpr with
-        | none => (st, "reject:empty-version")
-        | some m =>
-          match Router.new { cfg with name := decB name, notFoundBase := .groupNotFound } with
-          | none => (st, "reject:empty-name")
-          | some router =>
-            let rt1 := st.routers.set r router
-            match grp.add rt1 m r with
-            | some (grp', _) =>
-              -- the router only becomes visible under `rid` when `Add` succeeded
-              let (_, rt') := ((grp.add rt1 m r).getD (grp', rt1))
-              ({ st with groups := update st.groups g grp', routers := rt' }, "ok")
-            | none => (st, "reject:dup-name")
-      | _, _ => (st, "bad-op")
-    | _, _ => (st, "bad-op")
+  | ["group-new", gid, rid, name, mexpr] => groupNew st id gid rid name mexpr
+  | ["group-new", gid, rid, name, mexpr, icpt] =>
+    -- interceptors of this router alone on top of the group's (a rule given twice makes the constructor panic)
+    match lookup st.groupCfg (gid.toNat?.getD 0) with
+    | some cfg =>
+      let extra := decIcpt icpt
+      if extra.any (fun e => cfg.ic.any (fun e' => e'.1 = e.1)) ∨ ¬ (extra.map (·.1)).Nodup then (st, "reject:dup-interceptor")
+      else groupNew st (fun c => { c with ic := c.ic ++ extra }) gid rid name mexpr
+    | none => (st, "bad-op")
   | ["group-use", gid, mws] =>
     match gid.toNat? >>= (fun id => (lookup st.groups id).map (fun g => (id, g))) with
     | some (id, grp) =>
@@ -488,6 +512,10 @@ def step (st : St) (line : String) : St × String :=
       else (st, fmtServeS st.scripts (grp.serveHTTP env st.hostsTab st.pc st.scripts st.routers req))
     | none => (st, "bad-op")
   -- handler behaviour
+  | ["mw-script", mid, acts] =>
+    match mid.toNat? with
+    | some id => ({ st with mwScripts := if acts = "%-" then st.mwScripts.filter (· ≠ id) else id :: st.mwScripts }, "ok")
+    | none => (st, "bad-op")
   | ["script", hid, acts] =>
     match hid.toNat? with
     | some id => ({ st with scripts := update st.scripts id (decActs acts) }, "ok")
